@@ -1,7 +1,13 @@
 /-
-  PS.Model.Types — the registries of a `SchedulingProblem` and the private fields the
-  encoders read, as plain structures.  Mirrors processscheduler/{problem,task,resource,
-  constraint,buffer,indicator,objective}.py.  Core Lean only.
+  PS.Model.Types — a *resolved, declarative* description of what a construction script has
+  registered in a `SchedulingProblem` (problem.py, task.py, resource.py, constraint.py,
+  buffer.py, indicator.py, objective.py).
+
+  Design: the state holds structured data only (static parameters, a chronological log of
+  `add_required_resource` calls, constraint bodies with their references already resolved);
+  every z3 assertion list of the library is a *pure function* of that data
+  (PS.Model.Encode), so "the timing formulas of task t are asserted" is true by definition
+  and needs no invariant.  Core Lean only.
 -/
 import PS.Smt
 import PS.SmtPrint
@@ -27,20 +33,10 @@ inductive Cost where
   | poly (coeffs : List Int)
   deriving Repr, Inhabited
 
-/-- one entry of `task._required_resources`, with what `add_required_resource` was told -/
-structure Req where
-  worker : String
-  maybe : Bool            -- busy interval named `_maybe_busy_` (came through a selection)
-  sel : Option Nat        -- the selection it came through
-  dynamic : Bool
-  delayIn : Int
-  earlyOut : Int
-  past : Int              -- the "unique negative integer" where an unselected worker is parked
-  deriving Repr, Inhabited
-
+/-- a task: static parameters only -/
 structure Task where
   name : String
-  num : Nat               -- `_task_number`: 1-based creation index
+  num0 : Nat              -- `_task_number - 1`: 0-based creation index
   kind : TaskKind
   optional : Bool
   work : Int
@@ -48,23 +44,20 @@ structure Task where
   due : Option Int
   deadline : Bool
   prio : Int
-  asserts : List Fml      -- `_z3_assertions`, in append order
-  reqs : List Req         -- `_required_resources`, in append order
-  deriving Inhabited
+  deriving Repr, Inhabited
 
 structure Worker where
   name : String
   prod : Int
   cost : Cost
-  busy : List (String × Bool)    -- `_busy_intervals`: insertion-ordered, keyed by task; Bool = maybe
   cumulOf : Option String        -- unit of that cumulative worker
-  deriving Inhabited
+  deriving Repr, Inhabited
 
 structure Cumul where
   name : String
   size : Nat
   units : List String
-  deriving Inhabited
+  deriving Repr, Inhabited
 
 structure Select where
   id : Nat
@@ -72,16 +65,94 @@ structure Select where
   workers : List String
   n : Nat
   kind : CountKind
+  deriving Repr, Inhabited
+
+/-- one worker made busy by one `add_required_resource` call -/
+structure Req where
+  worker : String
+  maybe : Bool            -- busy interval named `_maybe_busy_` (came through a selection)
+  sel : Option Nat        -- the selection it came through
+  dynamic : Bool
+  delayIn : Int
+  earlyOut : Int
+  past0 : Nat             -- an unselected worker is parked at `-(past0 + 2)` ("unique negative integer")
+  deriving Repr, Inhabited
+
+/-- one `add_required_resource` call, as executed -/
+inductive ReqEvent where
+  | direct (task : String) (r : Req)
+  /-- through a selection: one `If(selected, …)` per listed worker, then the count assertion
+      (`withCount = false` only in the residue of a call that raised on a duplicate assertion) -/
+  | viaSelect (task : String) (s : Select) (rs : List Req) (withCount : Bool)
+  deriving Repr, Inhabited
+
+def ReqEvent.task : ReqEvent → String
+  | .direct t _ => t
+  | .viaSelect t _ _ _ => t
+
+def ReqEvent.reqs : ReqEvent → List Req
+  | .direct _ r => [r]
+  | .viaSelect _ _ rs _ => rs
+
+/-- a busy interval as seen by a resource constraint / indicator at its creation -/
+structure BusyRef where
+  worker : String
+  task : String
+  maybe : Bool
+  deriving Repr, Inhabited, DecidableEq
+
+/-- constraint bodies, references resolved -/
+inductive CBody where
+  | startAt (t : Task) (v : Int)
+  | startAfter (t : Task) (v : Int) (strict : Bool)
+  | endAt (t : Task) (v : Int)
+  | endBefore (t : Task) (v : Int) (strict : Bool)
+  | precedence (before after : Task) (offset : Int) (kind : OrdKind)
+  | startSynced (t1 t2 : Task)
+  | endSynced (t1 t2 : Task)
+  | dontOverlap (t1 t2 : Task)
+  | contiguous (ts : List Task)
+  | unorderedGroup (ts : List Task) (window : Option (Int × Int)) (len : Int)
+  | orderedGroup (ts : List Task) (window : Option (Int × Int)) (len : Int) (kind : OrdKind)
+  | scheduleN (ts : List Task) (n : Nat) (intervals : List (Int × Int)) (kind : CountKind)
+  | forceSchedule (t : Task) (b : Bool)
+  | conditionSchedule (t : Task) (cond : Fml)
+  | dependency (t1 t2 : Task)
+  | forceScheduleN (ts : List Task) (n : Nat) (kind : CountKind)
+  | fromExpr (f : Fml)
+  | forceApplyN (cs : List Nat) (n : Nat) (kind : CountKind)
+  /-- connectives: every operand is the list of assertions of the constraint (or the single raw
+      expression) it stands for -/
+  | not_ (o : List Fml)
+  | or_ (os : List (List Fml))
+  | and_ (os : List (List Fml))
+  | xor_ (o1 o2 : List Fml)
+  | implies (cond : Fml) (os : List (List Fml))
+  | ifThenElse (cond : Fml) (os1 os2 : List (List Fml))
+  /-- resource constraints, with the busy intervals that existed when they were created -/
+  | unavailable (busy : List BusyRef) (intervals : List (Int × Int))
+  | workload (busy : List BusyRef) (intervals : List ((Int × Int) × Int)) (kind : CountKind)
+  | nonDelay (busy : List BusyRef)
+  | distance (busy : List BusyRef) (d : Int) (intervals : Option (List (Int × Int))) (mode : CountKind)
+  | sameWorkers (s1 s2 : Select)
+  | distinctWorkers (s1 s2 : Select)
+  | unloadBuffer (t : Task) (b : String) (q : Int)
+  | loadBuffer (t : Task) (b : String) (q : Int)
+  | indicatorTarget (v : IVar) (value : Int)
+  | indicatorBounds (v : IVar) (lo hi : Option Int)
+  /-- registered by `Constraint.__init__`, then the subclass constructor raised -/
+  | residue
+  /-- … raised on a duplicate assertion after having appended these formulas -/
+  | partial_ (fs : List Fml)
   deriving Inhabited
 
-/-- a registered constraint: what `initialize` and the connectives read -/
 structure Constr where
   id : Nat
-  name : Option String        -- explicit name, if any (auto-generated names are printed `%n<id>%`)
+  name : Option String        -- explicit name, if any
   cls : String                -- Python class name
   optional : Bool
   operand : Bool              -- `_created_from_assertion`
-  asserts : List Fml
+  body : CBody
   deriving Inhabited
 
 structure Buffer where
@@ -91,10 +162,22 @@ structure Buffer where
   final : Option Int
   lb : Option Int
   ub : Option Int
-  unloading : List (String × Int)     -- task, quantity  (dict: overwrite keeps position)
-  loading : List (String × Int)
-  accesses : List String              -- tasks in order of `_level_changes_time` / `_buffer_levels[1:]`
-  asserts : List Fml
+  deriving Repr, Inhabited
+
+/-- indicator bodies -/
+inductive IBody where
+  | expr (t : Term) (extra : List Fml)          -- IndicatorFromMathExpression (+ helper assertions)
+  | utilization (busy : List BusyRef) (horizon : Option Int)
+  | nbTasksAssigned (busy : List BusyRef)
+  | tardiness (ts : List Task)
+  | earliness (ts : List Task)
+  | nbTardy (ts : List Task)
+  | maxLateness (ts : List Task)
+  | resourceCost (items : List (Cost × List BusyRef))
+  | idle (busy : List BusyRef)
+  | maxBuffer (levels : List Term)
+  | minBuffer (levels : List Term)
+  | residue
   deriving Inhabited
 
 structure Indicator where
@@ -102,12 +185,12 @@ structure Indicator where
   name : String               -- the *reported* name (after the subclass renamed itself)
   var : IVar                  -- `_indicator_variable`
   bounds : Option (Int × Int)
-  asserts : List Fml
+  body : IBody
   deriving Inhabited
 
 structure Objective where
   name : String
-  target : IVar               -- `_target`
+  target : Term               -- `_target`
   bounds : Option (Int × Int)
   weight : Int
   maximize : Bool
@@ -115,13 +198,7 @@ structure Objective where
 
 /-- Python exception classes the harness distinguishes -/
 inductive Err where
-  | validation      -- pydantic ValidationError
-  | value           -- ValueError
-  | type_           -- TypeError
-  | assertion       -- AssertionError
-  | attribute       -- AttributeError
-  | key             -- KeyError
-  | other
+  | validation | value | type_ | assertion | attribute | key | other
   deriving DecidableEq, Repr, Inhabited
 
 def Err.print : Err → String
@@ -141,15 +218,12 @@ structure State where
   workers : List Worker := []
   cumuls : List Cumul := []
   selects : List Select := []
+  reqLog : List ReqEvent := []    -- every `add_required_resource` call, chronological
   constrs : List Constr := []
   indicators : List Indicator := []
   objectives : List Objective := []
   buffers : List Buffer := []
-  passerts : List Fml := []       -- the problem's own assertions
-  uniq : Int := -1                -- `_unique_integer`
-  nfresh : Nat := 0               -- z3.FreshInt counter (only the relative order matters)
-  nuid : Nat := 0                 -- counter for uuid-named auxiliary variables
-  nobj : Nat := 0                 -- objects created (for auto-generated names)
+  nPast : Nat := 0                -- "unique negative integers" handed out so far
   deriving Inhabited
 
 namespace State
@@ -162,23 +236,25 @@ def findConstr (st : State) (i : Nat) : Option Constr := st.constrs.find? (·.id
 def findBuffer (st : State) (n : String) : Option Buffer := st.buffers.find? (·.name == n)
 def findIndicator (st : State) (i : Nat) : Option Indicator := st.indicators.find? (·.id == i)
 
-/-- apply `f` to the task named `n` -/
-def updTask (st : State) (n : String) (f : Task → Task) : State :=
-  { st with tasks := st.tasks.map (fun t => if t.name == n then f t else t) }
+/-- the `add_required_resource` calls of one task, in order -/
+def eventsOf (st : State) (t : String) : List ReqEvent := st.reqLog.filter (·.task == t)
 
-def updWorker (st : State) (n : String) (f : Worker → Worker) : State :=
-  { st with workers := st.workers.map (fun w => if w.name == n then f w else w) }
-
-def updConstr (st : State) (i : Nat) (f : Constr → Constr) : State :=
-  { st with constrs := st.constrs.map (fun c => if c.id == i then f c else c) }
-
-def updBuffer (st : State) (n : String) (f : Buffer → Buffer) : State :=
-  { st with buffers := st.buffers.map (fun b => if b.name == n then f b else b) }
-
-def updIndicator (st : State) (i : Nat) (f : Indicator → Indicator) : State :=
-  { st with indicators := st.indicators.map (fun c => if c.id == i then f c else c) }
+/-- `task._required_resources` -/
+def reqsOf (st : State) (t : String) : List Req := (st.eventsOf t).flatMap (·.reqs)
 
 end State
+
+/-- Python dict assignment `d[k] = v` on an insertion-ordered list of (key, value) -/
+def dictSet {β} (l : List (String × β)) (k : String) (v : β) : List (String × β) :=
+  if l.any (·.1 == k) then l.map (fun e => if e.1 == k then (k, v) else e) else l ++ [(k, v)]
+
+/-- `worker._busy_intervals`: keyed by task, insertion ordered, later calls overwrite -/
+def State.busyOf (st : State) (w : String) : List (String × Bool) :=
+  st.reqLog.foldl (fun acc ev =>
+    ev.reqs.foldl (fun acc r => if r.worker == w then dictSet acc ev.task r.maybe else acc) acc) []
+
+def State.busyRefs (st : State) (w : String) : List BusyRef :=
+  (st.busyOf w).map (fun e => { worker := w, task := e.1, maybe := e.2 })
 
 /-! ### Variables of a task / a busy interval -/
 
@@ -190,12 +266,7 @@ def Task.schedF (t : Task) : Fml := if t.optional then .bvar (.sched t.name) els
 
 def bS (w t : String) (m : Bool) : Term := .var (.busyS w t m)
 def bE (w t : String) (m : Bool) : Term := .var (.busyE w t m)
-
-/-- Python dict assignment `d[k] = v` on an insertion-ordered association list of keys -/
-def dictSet (l : List (String × Bool)) (k : String) (v : Bool) : List (String × Bool) :=
-  if l.any (·.1 == k) then l.map (fun e => if e.1 == k then (k, v) else e) else l ++ [(k, v)]
-
-def dictSetI (l : List (String × Int)) (k : String) (v : Int) : List (String × Int) :=
-  if l.any (·.1 == k) then l.map (fun e => if e.1 == k then (k, v) else e) else l ++ [(k, v)]
+def BusyRef.s (b : BusyRef) : Term := bS b.worker b.task b.maybe
+def BusyRef.e (b : BusyRef) : Term := bE b.worker b.task b.maybe
 
 end PS
